@@ -202,7 +202,7 @@ macro_rules! c08_a2 {
 	($name:ident, $bt:expr, $first:expr) => {
 		crate::verif_env! {
 			#[kani::proof]
-			#[kani::unwind(6)]
+			#[kani::unwind(3)]
 			#[kani::stub(<std::os::fd::OwnedFd as std::ops::Drop>::drop, crate::verif_common::fd_drop_noop)]
 			fn $name() { commit_raw_cases($bt, $first) }
 		}
@@ -321,3 +321,4 @@ fn c07_k1_counted_dereference_leaves_overlay_alone() {
 	kani::cover!(deref);
 	std::mem::forget(overlay); std::mem::forget(first); std::mem::forget(second); std::mem::forget(o);
 }
+
